@@ -825,6 +825,20 @@ func (e *Engine) heapOlderThanNow(st *State, h T) {
 		e.emit(fmt.Sprintf("(assert (forall ((x Ref) (i Int)) (! (< (newid (sbase %s)) %s) :pattern ((sbase %s)))))", xi, now, xi))
 	case "(Array Int Iface)":
 		e.emit(fmt.Sprintf("(assert (forall ((x Ref) (i Int)) (! (=> ((_ is if_ref) %s) (< (newid (iref %s)) %s)) :pattern (%s))))", xi, xi, now, xi))
+	default:
+		// map values (and element heaps keyed by another sort): (Array K Ref|Slice|Iface)
+		if strings.HasPrefix(v, "(Array ") {
+			if k, vv := arrayKV(v); k != "Int" {
+				switch vv {
+				case sRef:
+					e.emit(fmt.Sprintf("(assert (forall ((x Ref) (i %s)) (! (< (newid %s) %s) :pattern (%s))))", k, xi, now, xi))
+				case sSlice:
+					e.emit(fmt.Sprintf("(assert (forall ((x Ref) (i %s)) (! (< (newid (sbase %s)) %s) :pattern ((sbase %s)))))", k, xi, now, xi))
+				case sIface:
+					e.emit(fmt.Sprintf("(assert (forall ((x Ref) (i %s)) (! (=> ((_ is if_ref) %s) (< (newid (iref %s)) %s)) :pattern (%s))))", k, xi, xi, now, xi))
+				}
+			}
+		}
 	}
 }
 
